@@ -9,6 +9,7 @@ import (
 	"encoding/json"
 	"fmt"
 	"os"
+	"runtime/debug"
 	"sync"
 	"time"
 )
@@ -317,6 +318,7 @@ func RunBatch(harnesses map[string]func()) {
 	if err := json.Unmarshal(data, &cases); err != nil {
 		panic("zzverif: " + err.Error())
 	}
+	debug.SetMaxStack(96 << 20) // unbounded recursion dies quickly instead of after 1 GB
 	for _, c := range cases {
 		h := harnesses[c.Harness]
 		if h == nil {
